@@ -48,7 +48,7 @@ func checkC08(w *World, r *Report) {
 	ro := w.Roles()
 	r.Undecided = []string{"the truncation arithmetic of the free part (integer part of amount*(1-free)) is not evaluated; only that TruncateInt and no rounding-up operator is on the slice"}
 	r.Rule("C08.same", "P6", "pool send: the value added to Sent, the value passed to account creation and the value transferred are the same amount; direct creation: the coins vested and the coins transferred are the same Coins", 4)
-	r.Rule("C08.vested", "P6", "original vesting depends on amount and on the vesting type's Free, passes through TruncateInt and never a rounding-up operator; the transferred coin does not depend on Free", 3)
+	r.Rule("C08.vested", "P6", "original vesting depends on amount and on the vesting type's Free - in every alternative the account creation can be handed -, passes through TruncateInt and never a rounding-up operator; the transferred coin does not depend on Free", 3)
 	r.Rule("C08.schedule", "P5,P6,P7", "restart: (start,end) depend on block time and LockupPeriod, end also on VestingPeriod; no restart: both are the pool's LockEnd; account start = max(lockEnd, now) (ordering table); end passed through; direct creation passes the message's start and end unchanged", 9)
 	r.Rule("C08.avail", "P5,P7", "= C05.avail for Sent: a send is rejected exactly when the pool holds less than the requested amount (ordering table over currently locked vs the amount that leaves the pool), and a negative amount is rejected", 3)
 	r.Rule("C08.pool", "P8", "sibling agreement: the pool a send debits is selected by exact equality of the stored name with the requested name, the same comparison that keeps pool names unique per owner at creation", 2)
@@ -147,6 +147,27 @@ func checkC08(w *World, r *Report) {
 		r.Check(dep, "C08.vested", "original vesting depends on amount and Free", w.Pos(ncvaCall.Instr.Pos()), "both parameters are on the backward slice", "original vesting does not depend on both the amount and the free fraction")
 		trunc := o.HasOp("types.Dec.TruncateInt") && !o.HasOp("types.Dec.RoundInt", "types.Dec.Ceil", "types.Dec.RoundInt64", "types.Dec.MulRoundUp", "types.Dec.QuoRoundUp")
 		r.Check(trunc, "C08.vested", "original vesting is truncated, never rounded up", w.Pos(ncvaCall.Instr.Pos()), "TruncateInt on the slice; no RoundInt/Ceil", "a rounding operator other than TruncateInt produces the vested amount")
+		// every alternative: the value handed to account creation may be chosen among several (a phi, the results of a
+		// helper); each of them is computed from the amount, and from Free unless the function branches on Free itself
+		// (a special case for a free fraction of zero or one) - no alternative may replace the documented amount by a
+		// constant or by a quantity that ignores the vesting type
+		branchesOnFree := false
+		for _, b := range nva.Blocks {
+			if iff, ok := b.Instrs[len(b.Instrs)-1].(*ssa.If); ok && tr.Origins(iff.Cond).Visited(freeP) {
+				branchesOnFree = true
+			}
+		}
+		alts := w.LiveValuesDeep(nva, func(ssa.Value) (bool, bool) { return false, false }, ovArg, 2)
+		allDep := len(alts) > 0
+		bad := ""
+		for _, a := range alts {
+			ao := a.Origins(tr)
+			if !ao.Visited(amountP) || !(ao.Visited(freeP) || branchesOnFree) {
+				allDep = false
+				bad = w.Pos(a.V.Pos())
+			}
+		}
+		r.Check(allDep, "C08.vested", "every alternative of the original vesting is computed from amount and Free", w.Pos(ncvaCall.Instr.Pos()), fmt.Sprintf("%d alternative(s), each with both parameters on its backward slice", len(alts)), "one alternative of the original vesting ("+bad+") is not computed from the amount and the free fraction: under some condition the account vests another amount than trunc(amount*(1-free))")
 	}
 	r.Check(ncvaCall.Args()[1] == toP, "C08.fresh", "newVestingAccount: account created for the recipient address", w.Pos(ncvaCall.Instr.Pos()), "same address value", "the account is created for another address than the transfer recipient")
 	if xfer != nil {
